@@ -42,6 +42,12 @@ CLAIMS = {
             'where their returned text lands and leaves a consistent state (covers runs of any length by induction). End to end: '
             'for each template x syntax, tabstops are numbered 1,2,3.. in document order without collisions and every callback '
             'position equals the prefix sum of the text returned before it.', '§3 C13'),
+    'C14': ('bounded symbolic execution (CrossHair/z3): solver-chosen index over every built-in markup snippet, alias vs definition '
+            'differential with symbolic decoration payloads; user tables with several top-level nodes; all 729 cyclic 3-key tables',
+            'Table-exhaustive: for every built-in html/xsl/pug snippet expand(alias) equals expand(definition), also with an added '
+            'attribute, text, repeater, self-closing mark or child where the definition is a single element chain; user snippets '
+            'with several top-level nodes get alias data on every top-level node and children in the deepest; resolution terminates '
+            'with nesting <= 3 for every table of 3 keys over 9 (cyclic) bodies.', '§3 C14'),
     'C15': ('bounded symbolic execution (CrossHair/z3): C01 operator skeletons rendered by the haml/pug/slim writers against a reference '
             'line writer; decorated templates with a symbolic indent string and payload',
             'All well-formed skeletons up to the stated size x 3 syntaxes must produce exactly one line per element at its depth '
